@@ -13,6 +13,7 @@ import (
 	"context"
 	"errors"
 	"fmt"
+	"hash/fnv"
 	"io/ioutil"
 	"reflect"
 	"sort"
@@ -155,27 +156,37 @@ func (b *c20backend) list(opts arvados.ListOptions) ([]c20row, error) {
 	call.opts.Filters = c20copyFilters(opts.Filters)
 	call.opts.Select = append([]string(nil), opts.Select...)
 	call.opts.Order = append([]string(nil), opts.Order...)
-	var matching []string
-	for _, u := range b.existing {
-		if set == nil || set[u] {
-			matching = append(matching, u)
-		}
+	type keyed struct {
+		p int
+		u string
 	}
 	rot := idx * 7
-	sort.Slice(matching, func(i, j int) bool {
-		pi, pj := (b.prio[matching[i]]+rot)%101, (b.prio[matching[j]]+rot)%101
-		if pi != pj {
-			return pi < pj
-		}
-		return matching[i] < matching[j]
-	})
-	previously := []string{}
-	for u := range b.everAsked {
-		if set != nil && !set[u] {
-			previously = append(previously, u)
+	var keyedMatching []keyed
+	for _, u := range b.existing {
+		if set == nil || set[u] {
+			keyedMatching = append(keyedMatching, keyed{(b.prio[u] + rot) % 101, u})
 		}
 	}
-	sort.Strings(previously)
+	sort.Slice(keyedMatching, func(i, j int) bool {
+		if keyedMatching[i].p != keyedMatching[j].p {
+			return keyedMatching[i].p < keyedMatching[j].p
+		}
+		return keyedMatching[i].u < keyedMatching[j].u
+	})
+	matching := make([]string, len(keyedMatching))
+	for i, k := range keyedMatching {
+		matching[i] = k.u
+	}
+	// uuids asked for earlier but not now (only the "repeat" fault needs them)
+	var previously []string
+	if b.faults[idx] == c20FaultRepeat && !(b.foreverAt >= 0 && idx >= b.foreverAt) {
+		for u := range b.everAsked {
+			if set != nil && !set[u] {
+				previously = append(previously, u)
+			}
+		}
+		sort.Strings(previously)
+	}
 	for u := range set {
 		b.everAsked[u] = true
 	}
@@ -410,9 +421,21 @@ func c20compactFilters(fs []arvados.Filter) string {
 			ok = true
 		}
 		if ok && len(l) > 8 {
-			sorted := append([]string(nil), l...)
-			sort.Strings(sorted)
-			parts = append(parts, fmt.Sprintf("[%q,%q,<%d uuids %s..%s #%x>]", f.Attr, f.Operator, len(l), sorted[0], sorted[len(sorted)-1], stats.FP(sorted)&0xffffff))
+			// order-independent digest: smallest, largest, sum of element hashes
+			lo, hi := l[0], l[0]
+			var sum uint64
+			for _, u := range l {
+				if u < lo {
+					lo = u
+				}
+				if u > hi {
+					hi = u
+				}
+				h := fnv.New64a()
+				h.Write([]byte(u))
+				sum += h.Sum64()
+			}
+			parts = append(parts, fmt.Sprintf("[%q,%q,<%d uuids %s..%s #%x>]", f.Attr, f.Operator, len(l), lo, hi, sum&0xffffffff))
 			continue
 		}
 		parts = append(parts, fmt.Sprintf("[%q,%q,%#v]", f.Attr, f.Operator, f.Operand))
@@ -447,7 +470,7 @@ func TestVerifC20ListByUUID(t *testing.T) {
 		// requested objects and paging them out one or two at a time, so that
 		// one backend has to be asked for more than 64 / 100 / 128 pages.
 		bigID, bigN := "", 0
-		if k := rapid.IntRange(0, 79).Draw(t, "bigSet"); k == 41 || k == 57 {
+		if rapid.IntRange(0, 79).Draw(t, "bigSet") == 41 {
 			bigID = known[rapid.IntRange(0, len(known)-1).Draw(t, "bigCluster")]
 			bigN = rapid.SampledFrom([]int{65, 66, 70, 90, 100, 101, 102, 110, 127, 128, 129, 130, 131, 150, 180, 200}).Draw(t, "bigN")
 		}
